@@ -513,6 +513,13 @@ def run_sportshall(mon, ctx, job, rnd):
                 attach.call(f, code, str(int(x)))
             attach.call(f, code.lower(), '%.1f' % x if (x * 10) % 1 == 0 else s)
         k += 1
+        if k % 7 == 0:
+            # the verbose flag prints the search, it must not change the points
+            import contextlib
+            import io
+            with contextlib.redirect_stdout(io.StringIO()):
+                attach.call(f, code, s, verbose=True)
+                attach.call(f, code, s, True)
         if k % 9 == 0:
             for sp in (' ' + code, code + ' ', code.lower() + '\n'):
                 attach.call(f, sp, s)
